@@ -82,6 +82,11 @@ VM_ALLOCATE = {"main": "src/virtual_machine.cpp", "keep": ["VmBase::allocate", "
                "pre_rewrites": [{"name": "Allocator::allocMemory -> allocator stand-in", "pattern": r"Allocator::allocMemory\(", "repl": "rxv_Allocator_allocMemory("}],
                "must_fire": {"recipe rewrite: Allocator::allocMemory -> allocator stand-in": 1}}
 
+VM_DTOR = {"main": "src/virtual_machine.cpp", "keep": ["VmBase::~VmBase", "VmBase::dtor"],
+           "flatten": {"root": "randomx_vm", "concrete": "VmBase", "chain": ["randomx_vm", "VmBase"]},
+           "pre_rewrites": [{"name": "Allocator::freeMemory -> allocator stand-in", "pattern": r"Allocator::freeMemory\(", "repl": "rxv_Allocator_freeMemory("}],
+           "must_fire": {"recipe rewrite: Allocator::freeMemory -> allocator stand-in": 1}}
+
 SS_SELECT = {'main': 'src/superscalar.cpp', 'keep': ['SuperscalarInstruction::selectDestination', 'SuperscalarInstruction::selectSource', 'selectRegister'], 'pre_rewrites': [{'name': 'std::vector<int> local -> fixed-capacity list', 'pattern': '\\b(static\\s+)?std::vector<int> (\\w+);', 'repl': '\\1rxv_ivec8 \\2 = { { 0 }, 0 };'}, {'name': 'vector push_back', 'pattern': '\\b(\\w+)\\.push_back\\(', 'repl': 'rxv_ivec8_push(&\\1, '}, {'name': 'vector clear', 'pattern': '\\b(\\w+)\\.clear\\(\\)', 'repl': 'rxv_ivec8_clear(&\\1)'}, {'name': 'vector size', 'pattern': '\\b(\\w+)\\.size\\(\\)', 'repl': 'rxv_ivec8_size(&\\1)'}, {'name': 'vector index', 'pattern': '\\bavailableRegisters\\[(\\w+)\\]', 'repl': 'rxv_ivec8_at(&availableRegisters, \\1)'}, {'name': 'instruction type query -> stand-in', 'pattern': 'info_->getType\\(\\)', 'repl': 'rxv_info_type(info_)'}, {'name': 'generator draw -> stand-in', 'pattern': 'gen\\.getUInt32\\(\\)', 'repl': 'rxv_gen_u32(&gen)'}], 'opaque_classes': ['MacroOp', 'SuperscalarInstructionInfo', 'DecoderBuffer', 'Blake2Generator'], 'drop_vars': ['SuperscalarInstruction::Null', 'SuperscalarInstruction_Null', '\\bslot_\\w+', 'buffer\\d', 'decodeBuffers?', '\\bNull\\b'], 'vector_as': {'int': 'rxv_ivec8'}}
 SS_SELECT["must_fire"] = {"recipe rewrite: std::vector<int> local -> fixed-capacity list": 2, "recipe rewrite: vector push_back": 2}
 
@@ -120,6 +125,7 @@ SS_SCHEDULE_MOP = {'main': 'src/superscalar.cpp', 'keep': ['scheduleMop'], 'opaq
 STR_OPS = [{"name": "local std::string -> rxv_string", "pattern": r"\bstd::string (\w+);", "repl": r"rxv_string \1 = { 0, 0, 0 };"},
            {"name": "std::string::assign -> rxv_string_assign", "pattern": r"\b(\w+(?:->\w+)*)\.assign\(", "repl": r"rxv_string_assign(&\1, "},
            {"name": "std::string::compare -> rxv_string_compare", "pattern": r"\b(\w+(?:->\w+)*)\.compare\(", "repl": r"rxv_string_compare(&\1, "},
+           {"name": "std::string observers -> rxv_string observers", "pattern": r"\b((?:\w+->)*cacheKey)\.(size|length|data|c_str)\(\)", "repl": r"rxv_string_\2(&\1)"},
            {"name": "std::string != -> abstract identity comparison", "pattern": r"cache->cacheKey != cacheKey", "repl": "!rxv_string_eq(&cache->cacheKey, &cacheKey)"}]
 RX_INIT_CACHE = {"main": "src/randomx.cpp", "keep": ["randomx_init_cache"], "pre_rewrites": STR_OPS,
                  "not_methods": ["initialize", "dealloc"], "must_fire": {}}
